@@ -11,7 +11,6 @@ package c12
 
 import (
 	"fmt"
-	"io"
 	"os"
 	"sync"
 	"time"
@@ -76,9 +75,28 @@ func wrapHost(evs []trace.Ev) []trace.Ev {
 	return out
 }
 
-// Run executes a c01 scenario (its capability mask is ignored: the
+// ImgD: one picture of a "sixel" scenario.
+type ImgD struct {
+	W, H   int // size of the source picture in pixels
+	NCol   int // number of distinct colours in it
+	C, R   int // the cell it is drawn at
+	BW, BH int // the box (in cells) it is resized into
+}
+
+// Scn is a c01 scenario (replay files of either kind load) plus what only C12 has.
+// Kind "sixel": the application draws Imgs in one frame; its tty reports cells of CW x CH pixels.
+type Scn struct {
+	c01.Scn
+	CW, CH int    `json:",omitempty"`
+	Imgs   []ImgD `json:",omitempty"`
+}
+
+// Run executes a scenario (its capability mask is ignored: the
 // capabilities are whatever the emulator advertises).
-func Run(ctx *Ctx, sc *c01.Scn) (evs []trace.Ev, note string) {
+func Run(ctx *Ctx, sc *Scn) (evs []trace.Ev, note string) {
+	if sc.Kind == "sixel" {
+		return runSixel(ctx, sc)
+	}
 	defer func() {
 		if r := recover(); r != nil {
 			note = fmt.Sprintf("panic: %v", r)
@@ -115,16 +133,27 @@ func Run(ctx *Ctx, sc *c01.Scn) (evs []trace.Ev, note string) {
 	}()
 	var omu sync.Mutex
 	var out []byte
+	var ends []int // offsets in out at which a read of the emulator's parser ended
 	var feedPanic string
 	inner.OnWrite = func(p []byte) {
+		seqs, e := parseRec(p)
 		omu.Lock()
+		for _, x := range e {
+			ends = append(ends, len(out)+x)
+		}
 		out = append(out, p...)
 		omu.Unlock()
-		if msg := emu.Feed(vt, emu.Parse(p), nil); msg != "" && feedPanic == "" {
+		if msg := emu.Feed(vt, seqs, nil); msg != "" && feedPanic == "" {
 			feedPanic = msg
 		}
 	}
-	take := func() []byte { omu.Lock(); defer omu.Unlock(); o := out; out = nil; return o }
+	take := func() ([]byte, []int) {
+		omu.Lock()
+		defer omu.Unlock()
+		o, e := out, ends
+		out, ends = nil, nil
+		return o, e
+	}
 	vx, err := vaxis.New(vaxis.Options{WithConsole: inner, NoSignals: true})
 	if err != nil {
 		return nil, "inner start: " + err.Error()
@@ -134,7 +163,8 @@ func Run(ctx *Ctx, sc *c01.Scn) (evs []trace.Ev, note string) {
 	hcv := termcmd.NewConv(ctx.G, ctx.L, true, false) // the emulator clusters and measures per Unicode (mode 2027 permanently set)
 	cv.Mode2027 = true
 	evs = append(evs, trace.Ev{"ev": "reset", "rows": rows, "cols": cols, "xw": false, "adv": []string{"sixel", "unicodeCore"}})
-	evs = append(evs, cv.Feed(take())...)
+	startup, _ := take()
+	evs = append(evs, cv.Feed(startup)...)
 	evs = append(evs, trace.Ev{"ev": "ready", "can": map[string]bool{
 		"rgb": vx.CanRGB(), "kittyGraphics": vx.CanKittyGraphics(), "sixel": vx.CanSixel(), "color": vx.CanReportColor(),
 		"fg": vx.CanReportForegroundColor(), "bg": vx.CanReportBackgroundColor(), "graphics": vx.CanDisplayGraphics(),
@@ -208,7 +238,25 @@ func Run(ctx *Ctx, sc *c01.Scn) (evs []trace.Ev, note string) {
 		} else {
 			vx.Render()
 		}
-		evs = append(evs, cv.Feed(take())...)
+		fb, fe := take()
+		fevs := cv.Feed(fb)
+		// a fact about the transport: the clusters of this frame that straddle the end of a read
+		// of the emulator's parser (the parser cannot wait for the rest of a cluster)
+		if cut, n := cutPrints(fb, fe); len(cut) > 0 {
+			k := 0
+			for _, e := range fevs {
+				if e["ev"] == "print" {
+					if cut[k] {
+						e["cut"] = true
+					}
+					k++
+				}
+			}
+			if k != n {
+				note += fmt.Sprintf(" cut bookkeeping: %d prints, %d clusters", k, n)
+			}
+		}
+		evs = append(evs, fevs...)
 		app := make([][][]int, rows)
 		for r := range want {
 			app[r] = make([][]int, cols)
@@ -259,6 +307,5 @@ func Run(ctx *Ctx, sc *c01.Scn) (evs []trace.Ev, note string) {
 	host.Vx.Close()
 	pw.Close()
 	pr.Close()
-	_ = io.EOF
 	return evs, note
 }
